@@ -435,6 +435,16 @@ def mk_fn(name, *args):
             return mk_fn('exp10', P(a_))
         if not (n_.is_const() and n_.const_value() < 1):
             return mk_fn('exp10', P(a_ + Poly.atom(('fn', 'arange', args[0])) * (b_ - a_) * (n_ - 1).pow(-1)))
+    if name == 'int' and len(args) == 1 and args[0][0] == 'P':
+        q = Poly.from_key(args[0][1])
+        if q.is_monomial():
+            (m, c), = q.t.items()
+            if c == 1 and len(m) == 1 and m[0][1] == 1 and m[0][0][0] == 'fn' and m[0][0][1] in ('first', 'last', 'argmin', 'argmax', 'searchsorted', 'len', 'int', 'floor', 'ceil'):
+                return q                      # already a whole number (a position, a count)
+    if name == 'argmax' and len(args) == 1 and args[0][0] == 'B':
+        q = Poly.from_key(args[0][2])
+        if not q.is_const() and all(a[0] == 'ind' or (a[0] == 'fn' and a[1] in ('any', 'all')) for mono in q.t for a, _ in mono):
+            return mk_fn('first', args[0])        # the largest of truth values is the first True (where there is one; callers guard the case where there is none)
     if name == 'compress' and len(args) == 3 and args[0][0] == 'L' and args[1][0] == 'B' and args[2][0] == 'B' and args[1][1] == args[2][1]:
         # the elements a mask selects are the elements at the positions where it holds: x[mask] == x[nonzero(mask)]
         lab = args[1][1]
